@@ -8,7 +8,7 @@ PROP = 'C40'
 LEVEL = 'exploration'
 RULE = ('values D(6,8) + long mantissas (to 10^5 bits) + huge exponents + {0, +-inf, nan}, as mpf and as mpc (pairs incl. special parts), '
         'through every pickle protocol 0..HIGHEST, copy.copy and copy.deepcopy, also inside lists/dicts: same type, equal (nan: still nan), '
-        'identical stored representation, equal hash.  Matrices with mixed entries (int-valued, long-mantissa mpf built at 300 bits, mpc, '
+        'identical stored representation, equal hash.  Matrices with mixed entries (incl. all-zero matrices, whose sparse storage is empty; int-valued, long-mantissa mpf built at 300 bits, mpc, '
         'special values): copy()/copy.copy/deepcopy at working precisions 400/53/20 give an equal matrix with bit-identical entries, and the '
         'copy is independent in both directions (mutating either leaves the other unchanged, including the cached LU decomposition). '
         'non-trivial = every case; duplicate-free by construction')
@@ -32,6 +32,13 @@ def same(a, b, attr):
     return type(a) is type(b) and getattr(a, attr) == getattr(b, attr)
 
 
+def short(t):
+    """printable form of a raw value (str() of a 100000-bit int exceeds the interpreter's digit limit)"""
+    if isinstance(t, tuple) and len(t) == 4 and isinstance(t[1], int) and t[3] > 200:
+        return '(%d, <%d-bit mantissa>, %d, %d)' % (t[0], t[3], t[2], t[3])
+    return str(t)[:60]
+
+
 def t_num(task):
     _, c, nch = task
     from mpmath import mp, mpf
@@ -49,12 +56,12 @@ def t_num(task):
             try:
                 y = f()
             except Exception as e:
-                acc.violation(['num', name, t if t[3] < 200 else 'long'], '%s of mpf %s raised %r' % (name, str(t)[:60], e), kind='raise', route=name.rstrip('0123456789')); continue
+                acc.violation(['num', name, t if t[3] < 200 else 'long'], '%s of mpf %s raised %s: %s' % (name, short(t), type(e).__name__, str(e)[:80]), kind='raise', route=name.rstrip('0123456789')); continue
             ok = same(x, y, '_mpf_') and (t == fnan or (x == y and hash(x) == hash(y))) and (t != fnan or mp.isnan(y))
             if ok and t not in (fnan,):
                 ok = repr(x) == repr(y) if t[3] < 2000 else True
             if not ok:
-                acc.violation(['num', name, t if t[3] < 200 else 'long'], '%s of mpf %s gives %s (type %s)' % (name, str(t)[:60], str(getattr(y, '_mpf_', y))[:60], type(y).__name__), kind='changed',
+                acc.violation(['num', name, t if t[3] < 200 else 'long'], '%s of mpf %s gives %s (type %s)' % (name, short(t), short(getattr(y, '_mpf_', y)), type(y).__name__), kind='changed',
                               route=name.rstrip('0123456789'), special=bool(t[1] == 0))
     acc.sample(['pickle2', V[9]])
     return acc
@@ -63,7 +70,7 @@ def t_num(task):
 def t_cplx(task):
     from mpmath import mp, mpc
     acc = Acc()
-    base = [fzero, finf, fninf, fnan, mk(0, 1, 0), mk(1, 3, -1), mk(0, (1 << 200) + 1, -100), mk(1, 5, 10 ** 6), mk(0, 7, -3)]
+    base = [fzero, finf, fninf, fnan, mk(0, 1, 0), mk(1, 3, -1), mk(0, (1 << 200) + 1, -100), mk(1, 5, 10 ** 6), mk(0, 7, -3), mk(1, (1 << 20000) + 1, -3)]
     for a in base:
         for b in base:
             z = mp.make_mpc((a, b))
@@ -76,7 +83,7 @@ def t_cplx(task):
                 except Exception as e:
                     acc.violation(['cplx', name, a, b], '%s of mpc raised %r' % (name, e), kind='raise', route=name.rstrip('0123456789')); continue
                 if not same(z, y, '_mpc_'):
-                    acc.violation(['cplx', name, a if a[3] < 100 else 'long', b if b[3] < 100 else 'long'], '%s of mpc(%s,%s) gives %s' % (name, str(a)[:40], str(b)[:40], str(getattr(y, '_mpc_', y))[:90]), kind='changed',
+                    acc.violation(['cplx', name, a if a[3] < 100 else 'long', b if b[3] < 100 else 'long'], '%s of mpc(%s,%s) gives %s' % (name, short(a), short(b), short(getattr(y, '_mpc_', y))), kind='changed',
                                   route=name.rstrip('0123456789'), special=bool(a[1] == 0 or b[1] == 0))
                 elif fnan not in (a, b) and not (z == y and hash(z) == hash(y)):
                     acc.violation(['cplx', name, a, b], '%s of mpc: copy compares/hashes differently' % name, kind='changed', route=name.rstrip('0123456789'), special=False)
@@ -96,6 +103,10 @@ def t_matrix(task):
             'mixed2x3': lambda: mp.matrix([[1, long1, zz], [long2, mp.inf, -2.5]]),
             'square3': lambda: mp.matrix([[4, long1, 2], [1, 5, 3], [2, 3, long2]]),
             'vector': lambda: mp.matrix([long1, 2, zz, mp.nan]),
+            'zeros2': lambda: mp.zeros(2),
+            'zeros3x2': lambda: mp.matrix(3, 2),
+            'reset-to-zero': lambda: (lambda M: (M.__setitem__((0, 1), 0), M)[1])(mp.matrix([[0, 7], [0, 0]])),
+            'M-M': lambda: mp.matrix([[1, long1], [2, 3]]) - mp.matrix([[1, long1], [2, 3]]),
         }
         for mname, build in mats.items():
             for p in (400, 53, 20):
